@@ -59,4 +59,9 @@ TEXT = {
         "level": "After every operation of generated histories: active liquidity vs positions containing the tick, per-tick gross/net vs positions, stored tick set, price-vs-tick agreement per position (non-strict forms), empty-pool reset, position identity, depth query.",
         "note": "Trusted: the workload's own record of positions (ids, owners, ranges from message responses).",
     },
+    "C08": {
+        "technique": "runtime monitor: metamorphic relations inside one history (twin, k-times and never-in-range probe positions), bank-event ledger totals, before/after preservation check around every position operation",
+        "level": "Generated histories with planted probe positions; after every operation twins must have identical claimable rewards, the k-times position proportional ones, the never-in-range position none; total claimed + claimable never exceeds fees paid in + incentives funded and falls short only by the computed dust bound; every claim/add/withdraw/transfer preserves matured rewards within one unit per denom per accumulator; positions younger than every incentive's uptime have no claimable incentives.",
+        "note": "Trusted: the harness ledgers built from message responses and bank events of the handler results; swept-tick tracking for 'never entered'. Forfeited incentives paid to a leaving owner when no other liquidity is active are the statement's own exception and are classified, not flagged.",
+    },
 }
